@@ -13,7 +13,9 @@ MODEL_MODULE = 'V.C15.Model'
 READY = True
 RULE = ('cases = (1..6 options over kinds {flag store_true, flag store_false, int, string, vector<int>, ValueMap int, custom notifier, ValueMap flag store_true, ValueMap flag store_false} '
         'x composing x implicit x default(valid/invalid), 1..5 operations over assign(source of 0..7 (option,value) pairs with duplicates '
-        'and refused strings at every position, optional exclude set) / assignDefaults / fresh ParsedOptions); '
+        'and refused strings at every position, optional exclude set) / assignDefaults / fresh ParsedOptions / ParsedOptions::add(name) for own and FOREIGN names / '
+        'assign of a source of a SECOND context (6 string options) on the same ParsedOptions object; 30 % of the cases hand assignDefaults a set with foreign names whose total size is '
+        'below / equal / above the number of options of the context while options are unmentioned); '
         'non-trivial = at least one assign op with >= 1 pair; distinct = distinct case tuples')
 TRUSTED_BASE = ['typed parsers (string_cast<int/bool/vector<int>>) are abstract in the theorems; their concrete model used for the '
                 'correspondence covers the decimal sublanguage only (C16 covers conversions)',
@@ -24,7 +26,8 @@ ALLOWED_AXIOMS = []
 TECHNIQUE = 'Coq proof about an executable model of Value::parse / ParsedOptions::assign / assignDefaults + differential correspondence'
 DESIGN_REF = 'DESIGN.md section 5, C15'
 LEVEL_TEXT = ('Machine-checked proofs (Coq) over the model of ParsedOptions::assign (value states, scope guard run on the exception path) and '
-              'assignDefaults, generic in the option set, the per-option parser, the sources and the exclude sets; the model is tied to the code by '
+              'assignDefaults, generic in the option set, the per-option parser, the sources, the exclude sets and the parsed set (assignDefaults depends on it only through the membership '
+              'of the context\'s own option names - foreign names and the size of the set are irrelevant: c15_defaults_own_names_only, c15_defaults_foreign_names, c15_defaults_reported_iff); the model is tied to the code by '
               'differential correspondence against the real classes with nine kinds of typed targets, and an independent python oracle.')
 LEVEL_NOTE = 'Parsers are abstract in the proofs (any function string -> option value, plus what a refused string leaves in the variable).'
 
